@@ -17,6 +17,11 @@ def registry():
     from mc.checks import editfam
     for pid in ("C06", "C07", "C17"):
         reg[pid] = (lambda p=pid: editfam.make(p))
+    from mc.checks import magnet, piecelen
+    reg["C11"] = lambda: magnet.make("C11")
+    reg["C12"] = lambda: piecelen.make("C12")
+    from mc.checks import options
+    reg["C20"] = lambda: options.make("C20")
     return reg
 
 
